@@ -65,6 +65,10 @@ func xsafely(lg *xlog, f func()) {
 	f()
 }
 
+// xJoinWait bounds every wait for goroutines of one execution (generous: the machine may be heavily loaded; a real
+// deadlock stays one for ever); after an execution with hung goroutines the driver stops producing further ones.
+const xJoinWait = 20 * time.Second
+
 func xyield(n int) {
 	for ; n > 0; n-- {
 		runtime.Gosched()
@@ -111,6 +115,9 @@ func (g *xgroup) join(d time.Duration) []any {
 	return out
 }
 
+// xHung is set when an execution ended with hung goroutines.
+var xHung bool
+
 func ctxRunMain(args []string) int {
 	fs := flag.NewFlagSet("x2ctx", flag.ExitOnError)
 	seed := fs.Int64("seed", 1, "")
@@ -129,11 +136,11 @@ func ctxRunMain(args []string) int {
 	rd := rand.New(rand.NewSource(*seed))
 	n := 0
 	for _, sc := range []string{"initcheck", "heldPrimary", "heldSecondary"} {
-		for v := 0; v < 4; v++ {
+		for v := 0; v < 4 && !xHung; v++ {
 			n += ctxForced(enc, sc, v)
 		}
 	}
-	for i := 0; i < *traces; i++ {
+	for i := 0; i < *traces && !xHung; i++ {
 		impl := core.Pick(rd, "std", "fake")
 		switch {
 		case i%10 == 9:
@@ -164,6 +171,7 @@ func readEv(ctx context.Context, r int, first string) core.Ev {
 }
 
 func finalEv(ctx context.Context, baseline int, hung []any) core.Ev {
+	xHung = xHung || len(hung) > 0
 	_ = sched.Quiesce(3 * time.Second)
 	return core.Ev{"op": "final", "done": isDone(ctx), "err": errClass(ctx.Err()), "g": runtime.NumGoroutine() - baseline, "hung": hung}
 }
@@ -260,7 +268,7 @@ func ctxFree(enc *json.Encoder, rd *rand.Rand, sc, impl string) int {
 			}
 		})
 	}
-	hung := g.join(5 * time.Second)
+	hung := g.join(xJoinWait)
 	if merged != nil {
 		lg.add(finalEv(merged, baseline, hung))
 	}
@@ -300,7 +308,7 @@ func ctxForced(enc *json.Encoder, sc string, variant int) int {
 	var mcancel context.CancelFunc
 	g := newXgroup()
 	waitParked := func(p string) bool {
-		deadline := time.Now().Add(5 * time.Second)
+		deadline := time.Now().Add(xJoinWait)
 		for gate.Parked(p) == 0 {
 			if time.Now().After(deadline) {
 				return false
@@ -375,7 +383,7 @@ func ctxForced(enc *json.Encoder, sc string, variant int) int {
 			read("err")
 		}
 	}
-	hung := g.join(5 * time.Second)
+	hung := g.join(xJoinWait)
 	if !ok {
 		hung = append(hung, "gate-never-reached")
 	}
